@@ -97,10 +97,9 @@ class Circuit(object):
         Returns:
              output statevector
         """
-        self.circuit = np.array(self.circuit, dtype=object)
-        matrix_prod = ft.reduce(np.kron, self.circuit[:, 0])
+        matrix_prod = ft.reduce(np.kron, [row[0] for row in self.circuit])
         for i in range(1, self.depth):
-            matrix_prod = ft.reduce(np.kron, self.circuit[:, i]) @ matrix_prod
+            matrix_prod = ft.reduce(np.kron, [row[i] for row in self.circuit]) @ matrix_prod
         psi = matrix_prod @ psi0
         return psi
 
